@@ -158,3 +158,8 @@ def init(self, resource, context, defines=None):
     if defines is None:
         defines = {}
     self.defines = defines
+
+
+def handle_import(self, section, rest):
+    pkgname = self.replace(rest.strip())
+    self.context.importSchemaComponent(pkgname)
